@@ -404,9 +404,9 @@ func (g *Gen) randJSONDoc(depth int, useNumber bool) interface{} {
 		r = r % 60
 	}
 	switch {
-	case r < 12:
+	case r < 6:
 		return nil
-	case r < 22:
+	case r < 16:
 		return g.r.Intn(2) == 0
 	case r < 40:
 		if useNumber {
@@ -437,18 +437,27 @@ func (g *Gen) randDatum() interface{} {
 	switch r := g.r.Intn(100); {
 	case r < 2:
 		return nil
-	case r < 30:
+	case r < 40:
+		// a JSON object with a few entries at the top
+		m := map[string]interface{}{}
+		n := 2 + g.r.Intn(4)
+		use := g.r.Intn(2) == 0
+		for i := 0; i < n; i++ {
+			m[interestingKeys[g.r.Intn(len(interestingKeys))]] = g.randJSONDoc(3, use)
+		}
+		return m
+	case r < 45:
 		return g.randJSONDoc(3, g.r.Intn(2) == 0)
-	case r < 55:
+	case r < 68:
 		return g.randValue(reflect.TypeOf(Outer{}), 3).Interface()
-	case r < 60:
+	case r < 72:
 		v := g.randValue(reflect.TypeOf(Outer{}), 3)
 		p := reflect.New(v.Type())
 		p.Elem().Set(v)
 		return p.Interface()
-	case r < 68:
+	case r < 78:
 		return g.randValue(reflect.TypeOf(HiddenHolder{}), 3).Interface()
-	case r < 80:
+	case r < 90:
 		// map[string]T for a random T
 		return g.randValue(reflect.MapOf(reflect.TypeOf(""), g.randType(2)), 3).Interface()
 	default:
